@@ -30,6 +30,9 @@ fn main() {
         println!("FUZZ-REPLAY-PASS");
         std::process::exit(0);
     }
+    if args[1] == "dev-expansion" {
+        std::process::exit(dev::dev_expansion(&args[2..]));
+    }
     if args[1] == "dev-gen" {
         std::process::exit(dev::dev_gen(&args[2..]));
     }
